@@ -96,7 +96,7 @@ func runC09(c *Ctx) {
 					return true
 				}
 				recv := fn.Type().(*types.Signature).Recv()
-				if recv == nil || !strings.HasSuffix(recv.Type().String(), "announce.stringLRU") {
+				if recv == nil || !strings.HasSuffix(c.short(recv.Type().String()), "announce.stringLRU") {
 					return true
 				}
 				nTouch++
